@@ -171,7 +171,10 @@ class C12(Check):
             res.violation(f"api-disagree-rows:{'+'.join(ops)}:{'+'.join(types)}",
                           f"scan APIs return different multisets for filter {flt!r} columns={cols}", wit)
             return
-        if exp is None:
+        if exp is None or klass != "plain":
+            # ordering on a type the engine may not order, or a literal of another comparable Python
+            # type (datetime vs date, int vs float): semantics are the engine's; only cross-API
+            # agreement (above) and pruned == unpruned (C13) are demanded
             res.count("evaluator_na")
             return
         got = outcomes[0][3]
